@@ -887,6 +887,24 @@ def r_nulled(e, R):
             continue
         if isinstance(par, ast.Assign) and par.value is n and all(isinstance(t, ast.Name) for t in par.targets):
             bad_use = _unguarded_deref(e, f, par.targets[0].id)
+            if bad_use is not None and gated_in(f, n, n.attr):
+                # a snapshot taken where a direct read would be accepted (behind the gate), and dereferenced only inside the critical
+                # section it was taken in (a lock held at the load is still held at every dereference), is that direct read
+                g_ = e.cfg(f)
+                held_ = e.held(f)
+                ln = cfg_nodes(e, f, n)
+                locks_at_load = None
+                for x in ln:
+                    locks_at_load = held_[x] if locks_at_load is None else locks_at_load & held_[x]
+                ok_cs = bool(locks_at_load)
+                for u in func_nodes(f):
+                    if isinstance(u, ast.Name) and u.id == par.targets[0].id and isinstance(u.ctx, ast.Load):
+                        for cn in cfg_nodes(e, f, u):
+                            if not (locks_at_load and locks_at_load <= held_[cn] and any(g_.dominates(x, cn) for x in ln)):
+                                ok_cs = False
+                if ok_cs and len(e.local_defs(f, par.targets[0].id)) == 1:
+                    R.ok("R-NULLED", inst + " (local copy taken behind the gate and used inside the same critical section)", e.loc(f, n))
+                    continue
             R.check(bad_use is None, "R-NULLED", inst + " (local copy, dereferenced only under a None test)", f.short,
                     norm(n), f"field nulled by shutdown() is copied to a local and dereferenced without a None test: "
                     f"{norm(bad_use) if bad_use is not None else ''}", e.loc(f, n))
